@@ -774,6 +774,15 @@ class Program:
         roots = [body.id] + list(body.j.get("inlined", ()))     # closures of inlined novel helpers belong to the caller now
         return [b for b in self.bodies if b.kind == "Closure" and b.root in roots and any(b.id.startswith(r + "::") for r in roots)]
 
+    def family(self, body):
+        """the body and (transitively) the closures defined in it: one source-level function"""
+        out = [body]
+        for c in self.closures_of(body):
+            for x in self.family(c) if c is not body else []:
+                if x not in out:
+                    out.append(x)
+        return out
+
     def adt_impls(self, adt_path, trait=None):
         out = []
         for im in self.impls:
@@ -1031,7 +1040,7 @@ def _facts_at(self, pos, _depth=0):
     """relations that hold whenever control reaches `pos` (edge dominance + no intervening write)"""
     out = _facts_at_direct(self, pos)
     if _depth > 4:
-        return out
+        return _derive(out)
     # value-carried facts: a dominating fact says a multiply-defined local holds a success value, and only one of its
     # definitions builds a success value (ok_def): control came through that definition, so what held there holds here
     # (unless written in between)
@@ -1063,6 +1072,21 @@ def _facts_at(self, pos, _depth=0):
                 continue
             if r2 not in out:
                 out.append(r2)
+    return _derive(out)
+
+
+def _derive(out):
+    """a <= b together with a != b is a < b (the two-step form of a strict comparison)"""
+    cmps = {(r[1], r[2], r[3]) for r in out if r[0] == 'cmp'}
+    for (op, a, b) in list(cmps):
+        if op == 'Le' and (('Ne', a, b) in cmps or ('Ne', b, a) in cmps):
+            for n in (('cmp', 'Lt', a, b), ('cmp', 'Gt', b, a)):
+                if n not in out:
+                    out.append(n)
+        if op == 'Ge' and (('Ne', a, b) in cmps or ('Ne', b, a) in cmps):
+            for n in (('cmp', 'Gt', a, b), ('cmp', 'Lt', b, a)):
+                if n not in out:
+                    out.append(n)
     return out
 
 
